@@ -4,9 +4,11 @@ CONSTANTS
   Interleave = FALSE
   SeqParams <- SeqPlain
   Modes = {"Sign", "SignAndEncrypt"}
+  Splits = {"any"}
+  PreInjects = {"none"}
   Moves = {"damage", "inject"}
   Damages <- DamagesAll
-  Injects = {"opn.none", "type.unknown"}
+  Injects = {"opn.none", "type.unknown", "opn.cert.stranger", "opn.eccert", "opn.junkcert"}
   Budget = 2
   MaxChunks = 0
   Sweeps <- NoSweep
